@@ -53,8 +53,32 @@ TRICKY = [
     "x = {**a}\ny = {**a, b: c}\nz = {a: b, **c, **d}",
     "match s:\n    case C(k=a): pass\n    case C(a, k=b): pass\n    case {**r}: pass\n    case {1: a}: pass",
 ]
+
+
+def _arg_arrangements(maxlen):
+    """Every syntactically valid arrangement of positional / starred / keyword / double-starred arguments up to a length, as a
+    call and as a class header (args and keywords live in two lists that traversal has to merge by position)."""
+    import itertools
+    out = []
+    for n in range(2, maxlen + 1):
+        for ks in itertools.product('psKd', repeat=n):
+            if 'K' not in ks and 'd' not in ks:
+                continue  # one list only: covered by the hand-written programs
+            txt = ', '.join({'p': f'a{i}', 's': f'*b{i}', 'K': f'k{i}=c{i}', 'd': f'**d{i}'}[k] for i, k in enumerate(ks))
+            for src in (f'f({txt})', f'class C({txt}): pass'):
+                try:
+                    ast.parse(src)
+                except SyntaxError:
+                    continue
+                out.append(src)
+    return out
+
+
+ARGS4 = _arg_arrangements(4)
 PROGS = BASE + EXTRA + TRICKY
-for _p in PROGS:
+N_HAND = len(PROGS)
+PROGS = PROGS + ARGS4
+for _p in PROGS[:N_HAND]:
     ast.parse(_p)
 
 OPCLS = (ast.operator, ast.unaryop, ast.cmpop)
